@@ -1,9 +1,14 @@
-from props_common import TRUSTED_COMMON, VIEW_RULE, views_harness
+from props_common import GEN_LAYOUT_TRUST, TRUSTED_COMMON, VIEW_RULE, views_harness
 
 PROP = {
-    "lean_targets": ["MultiProofs.C01", "MultiProofs.Inj"],
+    "generators": [{"script": "gen_layout.py"}],
+    "lean_targets": ["MultiProofs.C01", "MultiProofs.Inj", "MultiProofs.GenTie"],
     "lean_module": "MultiProofs.Inj",
     "theorems": [
+        "Multi.GenTie.range_functions_are_the_code",
+        "Multi.GenTie.layout_functions_are_the_code",
+        "Multi.GenTie.view_functions_are_the_code",
+        "Multi.GenTie.V_diagonal_aux_tie",
         "Multi.C01.root_denotes",
         "Multi.C01.op_refines",
         "Multi.C01.reachable_denotes",
@@ -15,7 +20,7 @@ PROP = {
         "Multi.C01.broadcast_designates_source",
     ],
     "harnesses": [views_harness(["c01"], 4800, 320000, modes_thorough=["c01", "exhaustive"])],
-    "trusted_base": TRUSTED_COMMON,
+    "trusted_base": TRUSTED_COMMON + GEN_LAYOUT_TRUST,
     "assumptions": ["index arithmetic does not overflow ptrdiff_t", "element type int, raw pointers (other pointer types: C11)"],
     "rule": VIEW_RULE,
     "level_text": "Theorems (all D, all extents, all finite in-domain op sequences): each operation as coded refines its documented shape/index map; by induction every reachable view denotes the composed map, stays inside the root's storage, and size/sizes/num_elements/is_empty/strides and all access paths agree. The model is tied to /repo by a differential run of generated op sequences through the real templates.",
